@@ -11,3 +11,53 @@ package flowcontrols
 //@   trusted "constructor: allocates a limiter and its helpers, touches no existing object"
 //@   modifies nothing
 //@   ensures result != nil && fcsyncs[result] == 0
+
+// ---- the schema set of a cluster's limiter follows the latest FlowControl (C11) ----
+//@ const FCM = &f.flowControls.data
+//@ const fcmWF = f.flowControls != nil && (forall k ref :: {smhas(FCM, k)} smhas(FCM, k) ==> typeis(k, "string") && smget(FCM, k) != nil)
+
+//@ func (*upstreamLimiter).syncLocalFlowControls$2 props C11
+//@   iterator-body goset
+//@   requires [wf] fcmWF
+//@   modifies smap(&f.flowControls.data), fccstopped
+//@   ensures [ret] result
+//@   ensures [wf] fcmWF
+//@   ensures [each_removed] !smhas(FCM, elem)
+//@   ensures [only_removes] forall k ref :: {smhas(FCM, k)} smhas(FCM, k) ==> old(smhas(FCM, k)) && smget(FCM, k) == old(smget(FCM, k))
+//@   ensures [within_iterated] forall k ref :: {smhas(FCM, k)} old(smhas(FCM, k)) && !smhas(FCM, k) ==> (k in gsmem[iterated])
+//@   ensures [kept_outside] forall k ref :: {smhas(FCM, k)} {k in gsmem[iterated]} old(smhas(FCM, k)) && !(k in gsmem[iterated]) ==> smhas(FCM, k) && smget(FCM, k) == old(smget(FCM, k))
+//@   ensures [sets_kept] gsmem == old(gsmem)
+//@   ensures [removed_stopped] forall k ref :: {smhas(FCM, k)} old(smhas(FCM, k)) && !smhas(FCM, k) ==> (old(smget(FCM, k)) in fccstopped)
+//@   ensures [stop_monotone] forall x ref :: {x in fccstopped} old(x in fccstopped) ==> (x in fccstopped)
+//@   ensures [stops_only_removed] forall x ref :: {x in fccstopped} (x in fccstopped) && !old(x in fccstopped) ==> exists k ref :: {smhas(FCM, k)} old(smhas(FCM, k)) && !smhas(FCM, k) && x == old(smget(FCM, k))
+
+//@ const SPECP = unbox(f.currentFlowControlSpec.v, "*proxyv1alpha1.FlowControl")
+//@ const hasStored = typeis(f.currentFlowControlSpec.v, "*proxyv1alpha1.FlowControl") && SPECP != nil && allocated(SPECP)
+//@ const coupled = forall k ref :: {smhas(FCM, k)} smhas(FCM, k) ==> hasStored && schemaListed(SPECP.Schemas, unbox(k, "string"))
+//@ const NEWS = flowControls.Schemas
+
+//@ func (*upstreamLimiter).syncLocalFlowControls$1 props C11
+//@   modifies f.currentFlowControlSpec
+//@   ensures [stored] typeis(f.currentFlowControlSpec.v, "*proxyv1alpha1.FlowControl") && unbox(f.currentFlowControlSpec.v, "*proxyv1alpha1.FlowControl") != nil && allocated(unbox(f.currentFlowControlSpec.v, "*proxyv1alpha1.FlowControl")) && *unbox(f.currentFlowControlSpec.v, "*proxyv1alpha1.FlowControl") == flowControls
+
+//@ func (*upstreamLimiter).syncLocalFlowControls props C11
+//@   requires [wf] fcmWF
+//@   requires [coupled] coupled
+//@   modifies *
+//@   ensures [wf] fcmWF
+//@   ensures [coupled] coupled
+//@   ensures [unchanged_noop] !defined(oldset) ==> (forall k ref :: {smhas(FCM, k)} smhas(FCM, k) == old(smhas(FCM, k)) && smget(FCM, k) == old(smget(FCM, k))) && lfcsynced == old(lfcsynced) && fccstopped == old(fccstopped)
+//@   ensures [schemas_latest] defined(oldset) ==> forall k ref :: {smhas(FCM, k)} smhas(FCM, k) <==> typeis(k, "string") && schemaListed(NEWS, unbox(k, "string"))
+//@   ensures [listed_kept] defined(oldset) ==> forall k ref :: {smhas(FCM, k)} old(smhas(FCM, k)) && schemaListed(NEWS, unbox(k, "string")) ==> smget(FCM, k) == old(smget(FCM, k))
+//@   ensures [removed_stopped] forall k ref :: {smhas(FCM, k)} old(smhas(FCM, k)) && !smhas(FCM, k) ==> (old(smget(FCM, k)) in fccstopped)
+//@   ensures [spec_stored] defined(oldset) ==> hasStored && SPECP.Schemas == NEWS
+//@   loop 0: invariant [bounds] 0 <= idx && idx <= len(oldObj.Schemas) && oldset != newset
+//@   loop 0: invariant [oldset] forall x ref :: {x in gsmem[oldset]} (x in gsmem[oldset]) <==> typeis(x, "string") && schemaListed(take(oldObj.Schemas, idx), unbox(x, "string"))
+//@   loop 0: invariant [newset] forall x ref :: {x in gsmem[newset]} !(x in gsmem[newset])
+//@   loop 1: invariant [bounds] 0 <= idx && idx <= len(NEWS) && oldset != newset
+//@   loop 1: invariant [oldset] forall x ref :: {x in gsmem[oldset]} (x in gsmem[oldset]) <==> typeis(x, "string") && schemaListed(oldObj.Schemas, unbox(x, "string"))
+//@   loop 1: invariant [newset] forall x ref :: {x in gsmem[newset]} (x in gsmem[newset]) <==> typeis(x, "string") && schemaListed(take(NEWS, idx), unbox(x, "string"))
+//@   loop 1: invariant [wf] fcmWF
+//@   loop 1: invariant [keys] forall k ref :: {smhas(FCM, k)} smhas(FCM, k) <==> old(smhas(FCM, k)) || (typeis(k, "string") && schemaListed(take(NEWS, idx), unbox(k, "string")))
+//@   loop 1: invariant [kept] forall k ref :: {smhas(FCM, k)} old(smhas(FCM, k)) ==> smget(FCM, k) == old(smget(FCM, k))
+//@   loop 1: invariant [none_stopped] fccstopped == old(fccstopped)
